@@ -13,6 +13,8 @@ func init() {
 	harn.Register("C01_Msg", RunMsg)
 	harn.Register("C01_Dir", RunDir)
 	harn.Register("C04_Untrusted", RunUntrusted)
+	harn.Register("C01_Concurrent", RunConc)
+	harn.Register("C04_Concurrent", RunConc)
 }
 
 func TestReplay(t *testing.T)  { harn.Replay(t) }
@@ -29,6 +31,9 @@ func TestC01_Msg(t *testing.T) {
 }
 
 func TestC01_Dir(t *testing.T) { harn.Check(t, "C01_Dir", GenDirCase, RunDir) }
+
+func TestC01_Concurrent(t *testing.T) { harn.Check(t, "C01_Concurrent", GenConcValid, RunConc) }
+func TestC04_Concurrent(t *testing.T) { harn.Check(t, "C04_Concurrent", GenConcHostile, RunConc) }
 
 func FuzzDecodeVsRef(f *testing.F) {
 	for _, s := range seedCorpus() {
